@@ -773,6 +773,13 @@ class Explorer:
                 res = fn(self)
             except DeadPathBudget:
                 res = None
+            except (HarnessError, z3.Z3Exception, MemoryError, RecursionError, AssertionError):
+                raise
+            except Exception as e:      # the code under test raised on a feasible path: a candidate, not a harness error
+                res = None
+                if not self.dead:
+                    self.prove(False, 'EXC: the code under test raised %s' % type(e).__name__,
+                               {'exception': '%s: %s' % (type(e).__name__, str(e)[:200])})
             if self.dead:
                 self.dead_paths += 1
             else:
@@ -813,6 +820,31 @@ class Explorer:
             'cex': [c.as_dict() for c in self.cex[:5]], 'n_cex': len(self.cex),
             'tags': dict(self.tags), 'samples': self.samples, 'inconclusive': self.inconclusive,
         }
+
+
+class no_raise:
+    """Context manager: an exception escaping the code under test on a feasible path is a counterexample
+    (obligation `label`), not a harness error.  HarnessError / engine exceptions pass through."""
+
+    def __init__(self, ex, label, detail=None):
+        self.ex, self.label, self.detail = ex, label, detail
+        self.raised = None
+
+    def __enter__(self):
+        return self
+
+    def __exit__(self, et, ev, tb):
+        if et is None:
+            return False
+        if issubclass(et, (HarnessError, DeadPathBudget, z3.Z3Exception, MemoryError, RecursionError)):
+            return False
+        if not issubclass(et, Exception):
+            return False
+        self.raised = ev
+        d = dict(self.detail or {})
+        d['exception'] = '%s: %s' % (et.__name__, ev)
+        self.ex.prove(False, self.label + ': the code raised an exception', d)
+        return True
 
 
 def _short(res):
